@@ -89,12 +89,16 @@ class State:
         self.cons = Cons()
         self.lens = {}         # buffer id -> Lin length
         self.dead = False
+        self.mem = {}          # (buffer id, offset key) -> symbol of the element read there (read-only buffers)
+        self.facts = ()        # path facts: copies / comparisons of ranges seen on the way (tuples)
 
     def copy(self):
         s = State()
         s.env = dict(self.env)
         s.cons = self.cons.copy()
         s.lens = dict(self.lens)
+        s.mem = dict(self.mem)
+        s.facts = self.facts
         return s
 
 
@@ -159,6 +163,17 @@ class Flow:
         self.normal = normal or []
         self.brk = []
         self.cont = []
+
+
+def _pow2_divisor(x):
+    """Largest k <= 32 such that every coefficient and the constant of x are multiples of 2^k (0 for none / constant 0)."""
+    vals = list(x.t.values()) + ([x.c] if x.c != 0 else [])
+    if not vals or any(v.denominator != 1 for v in vals):
+        return 0
+    k = 0
+    while k < 32 and all(int(v) % (1 << (k + 1)) == 0 for v in vals):
+        k += 1
+    return k
 
 
 class Interp:
@@ -387,6 +402,11 @@ class Interp:
                         st.cons.add_le(s - x)
                     return s
         elif op in ('|', '^'):
+            for x, y in ((a, b), (b, a)):
+                # x is a multiple of 2^k and 0 <= y < 2^k: the bits are disjoint, so x | y == x ^ y == x + y
+                k2 = _pow2_divisor(x)
+                if k2 and st.cons.entails_le(-y) and st.cons.entails_le(y - ((1 << k2) - 1)) and st.cons.entails_le(-x):
+                    return self.fit(st, x + y, t, 'w')
             ba, bb = self.const_bounds(st, a), self.const_bounds(st, b)
             if a.is_const() and b.is_const():
                 return Lin.const(int(a.c) | int(b.c) if op == '|' else int(a.c) ^ int(b.c))
@@ -420,7 +440,7 @@ class Interp:
         if 'cv' in nd and k not in ('DeclRefExpr', 'MemberExpr') and not nd.get('lv'):
             return [(st, Lin.const(int(nd['cv'])))]
         if k in ('ParenExpr', 'ExprWithCleanups', 'MaterializeTemporaryExpr', 'CXXBindTemporaryExpr', 'ConstantExpr',
-                 'SubstNonTypeTemplateParmExpr', 'CXXRewrittenBinaryOperator', 'CXXDefaultArgExpr'):
+                 'SubstNonTypeTemplateParmExpr', 'CXXRewrittenBinaryOperator', 'CXXDefaultArgExpr', 'CXXDefaultInitExpr'):
             return self.ev(fn, ks[0], st, fr) if ks else [(st, UNK)]
         if k in ('IntegerLiteral', 'CharacterLiteral', 'CXXBoolLiteralExpr'):
             return [(st, Lin.const(int(nd['v'])))]
@@ -509,13 +529,25 @@ class Interp:
         if isinstance(base, Span):
             if isinstance(idx, Lin):
                 self.oblige('bound', fn, n, st, [-idx, idx + 1 - base.length], '%s %r within view of length %r' % (what, idx, base.length))
+                return self.element(st, base.buf, base.off + idx, t)
             else:
                 self.oblige('bound', fn, n, st, [None], '%s with unknown index' % what)
             return self.fresh_for_type(st, t, 'elem')
         if isinstance(base, Ptr) and isinstance(idx, Lin):
             self.access(fn, n, st, base.buf, base.off + idx, 1, what)
+            return self.element(st, base.buf, base.off + idx, t)
         else:
             self.oblige('bound', fn, n, st, [None], '%s through an untracked pointer/index (%r, %r)' % (what, base, idx))
+        return self.fresh_for_type(st, t, 'elem')
+
+    def element(self, st, buf, off, t):
+        """Value of the element at buf[off]: elements of const-qualified integer type read twice give the same symbol."""
+        tt = (t or '')
+        if tt.startswith('const ') and int_type(tt.replace('const ', '').strip()) is not None and isinstance(off, Lin):
+            key = (buf, off.key())
+            if key not in st.mem:
+                st.mem[key] = self.fresh(st, 'm', tt.replace('const ', '').strip())
+            return st.mem[key]
         return self.fresh_for_type(st, t, 'elem')
 
     def ev_cast(self, fn, n, st, fr):
@@ -580,7 +612,7 @@ class Interp:
             elif op == '*':
                 if isinstance(v, Ptr):
                     self.access(fn, n, s, v.buf, v.off, 1, 'dereference')
-                    out.append((s, self.fresh_for_type(s, t, 'deref')))
+                    out.append((s, self.element(s, v.buf, v.off, t)))
                 elif isinstance(v, Opt):
                     out.append((s, v.value if not isinstance(v.value, Unknown) else self.fresh_for_type(s, t, 'optv')))
                 else:
@@ -722,19 +754,22 @@ class Interp:
                         st_t.cons.add_lt(-d); st_f.cons.add_le(d)
                     elif op == '>=':
                         st_t.cons.add_le(-d); st_f.cons.add_lt(d)
-                    elif op == '==':
-                        st_t.cons.add_eq(d)
-                        # disequality is not convex: keep the state, split when one side excludes the other
-                        if st_f.cons.entails_le(d):
-                            st_f.cons.add_lt(d)
-                        elif st_f.cons.entails_le(-d):
-                            st_f.cons.add_lt(-d)
-                    elif op == '!=':
-                        st_f.cons.add_eq(d)
-                        if st_t.cons.entails_le(d):
-                            st_t.cons.add_lt(d)
-                        elif st_t.cons.entails_le(-d):
-                            st_t.cons.add_lt(-d)
+                    elif op in ('==', '!='):
+                        # disequality is not convex: it is the union of d < 0 and d > 0 (two states)
+                        eq_s, ne_lo = st_t, st_f
+                        ne_hi = s.copy()
+                        eq_s.cons.add_eq(d)
+                        ne_lo.cons.add_lt(d)
+                        ne_hi.cons.add_lt(-d)
+                        eqs = [eq_s] if not eq_s.cons.is_unsat() else []
+                        nes = [x for x in (ne_lo, ne_hi) if not x.cons.is_unsat()]
+                        if op == '==':
+                            tr += eqs
+                            fa += nes
+                        else:
+                            tr += nes
+                            fa += eqs
+                        continue
                     if not st_t.cons.is_unsat():
                         tr.append(st_t)
                     if not st_f.cons.is_unsat():
